@@ -370,6 +370,7 @@ func runTree(o *hlib.Out, r *hlib.Rand, tc treeCase, maxNodes int, note string) 
 		fmt.Fprintf(os.Stderr, "  tree %s %d bytes %d nodes eval %v\n", tc.format, len(tc.input), len(t.nodes), time.Since(t0))
 	}
 	if err != nil || len(outs) != len(nodes)+len(ps) {
+		fmt.Fprintf(os.Stderr, "tree %s (%d bytes): eval error %v (outputs %d)\n", tc.format, len(tc.input), err, len(outs))
 		o.Case(op, fmt.Sprintf("evalerr outputs=%d want=%d", len(outs), len(nodes)+len(ps)))
 		return true
 	}
@@ -403,6 +404,9 @@ func runTree(o *hlib.Out, r *hlib.Rand, tc treeCase, maxNodes int, note string) 
 			t.idOf(a[5]), parents, fmtTup(a[7]), fmtTup(a[8]), fmtHash(a[9]), fmtHash(a[10]))
 	}
 	sb.WriteString(" |")
+	if len(ps) == 0 {
+		sb.WriteString(" -")
+	}
 	for i := range ps {
 		a, _ := outs[len(nodes)+i].([]any)
 		if len(a) != 1 {
